@@ -187,4 +187,65 @@ def VirtualTerm.runHistory : VirtualTerm → List (Int × Bytes) → Except Stri
 /-- `BufferedTerm.Close()`: the bytes written to stdout, and the closed term -/
 def bufferedClose (c : Cfg) (v : VirtualTerm) : VirtualTerm × Bytes := (v.close, v.writeToOutput c)
 
+/-! ### termstate/term.go and cmd/helpers/output.go: which writer a command gets -/
+
+/-- what the operating system says about the process' stdout -/
+structure StdoutInfo where
+  /-- `os.Stdout.Stat()` returned no error -/
+  statOk : Bool
+  /-- `fi.Mode() & os.ModeCharDevice` is not 0 -/
+  charDevice : Bool
+  /-- `term.IsTerminal(fd)` -/
+  isTerminal : Bool
+  /-- `term.GetSize(fd)` returned no error … -/
+  sizeOk : Bool
+  /-- … and its first result (the width: columns) … -/
+  width : Int
+  /-- … and its second result (the height: rows) -/
+  height : Int
+  deriving DecidableEq, Repr
+
+/-- `termstate.IsPipedOutput()`: stdout is known not to be a character device -/
+def isPipedOutput (o : StdoutInfo) : Bool := o.statOk && !o.charDevice
+
+/-- `termstate.GetTermRowsCols()`: `some (rows, cols)` when the third result is `true` -/
+def getTermRowsCols (o : StdoutInfo) : Option (Int × Int) :=
+  if !o.isTerminal then none else if !o.sizeOk then none else some (o.height, o.width)
+
+/-- the implementations of `multiterm.MultilineTerm` a command can get -/
+inductive TermKind where
+  | null       -- `&multiterm.NullTerm{}`: writes nothing
+  | buffered   -- `multiterm.NewBufferedTerm()`: prints the final lines on `Close()`
+  | live       -- `multiterm.New()`: the in-place terminal writer
+  deriving DecidableEq, Repr
+
+/-- the command-line flags `BuildVTermFromArguments` looks at -/
+structure OutFlags where
+  noout : Bool       -- `--noout`
+  csv : Bytes        -- `--csv` / `-o` (empty when not given)
+  snapshot : Bool    -- `--snapshot`
+  deriving DecidableEq, Repr
+
+/-- `helpers.BuildVTerm(forceSnapshot)` -/
+def buildVTerm (forceSnapshot : Bool) (o : StdoutInfo) : TermKind :=
+  if forceSnapshot || isPipedOutput o then .buffered else .live
+
+/-- `helpers.BuildVTermFromArguments(c)` -/
+def buildVTermFromArguments (f : OutFlags) (o : StdoutInfo) : TermKind :=
+  if f.noout || f.csv == [0x2d] then .null else buildVTerm f.snapshot o
+
+/-- Everything a command writes to stdout through its `MultilineTerm` for an update history followed
+by `Close()`: the start-up state is `init()`'s for this stdout, the writer is the one
+`BuildVTermFromArguments` picks.  (`.error` = the buffered store panicked: negative line.) -/
+def cliOutput (E : Esc) (f : OutFlags) (o : StdoutInfo) (hist : List (Int × Bytes)) : Except String Bytes :=
+  let env := initEnv (getTermRowsCols o)
+  let c : Cfg := { E := E, autoTrim := env.autoTrim, cols := env.cols }
+  match buildVTermFromArguments f o with
+  | .null => .ok []
+  | .live => .ok (TermWriter.new.session c hist).2
+  | .buffered =>
+    match VirtualTerm.new.runHistory hist with
+    | .ok v => .ok (bufferedClose c v).2
+    | .error e => .error e
+
 end Rare.C20
